@@ -43,15 +43,15 @@ struct weekday {
 
     constexpr auto operator+=(days const& d) noexcept -> weekday&
     {
-        _wd += d.count();
-        _wd %= 7;
+        auto const n = (static_cast<long long>(_wd) + d.count()) % 7;
+        _wd          = static_cast<etl::uint8_t>(n < 0 ? n + 7 : n);
         return *this;
     }
 
     constexpr auto operator-=(days const& d) noexcept -> weekday&
     {
-        _wd -= d.count();
-        _wd %= 7;
+        auto const n = (static_cast<long long>(_wd) - d.count()) % 7;
+        _wd          = static_cast<etl::uint8_t>(n < 0 ? n + 7 : n);
         return *this;
     }
 
